@@ -40,14 +40,42 @@ require (
 replace github.com/Azbesciak/RealDecisionMaker/lib => $REPO/lib
 MOD
   cat "$REPO/httpClient/go.sum" "$REPO/lib/go.sum" | sort -u > "$BUILD/go.sum"
-  python3 - "$BUILD" "$RT" "$VERIF_DIR" <<'PY'
+  python3 - "$BUILD" "$RT" "$VERIF_DIR" "$REPO" <<'PY'
 import json,sys,os
 b,rt,vd=sys.argv[1:4]
 ov={}
 ov.update(json.load(open(os.path.join(rt,"frag.json"))))
 ov.update(json.load(open(os.path.join(b,"globals","frag.json"))))
 ov[os.path.join(vd,"harness","svc","zz_svc_gen.go")]=os.path.join(b,"svc_gen.go")
+repo=sys.argv[4]
+ov[os.path.join(repo,"lib","verifsched","sched.go")]=os.path.join(vd,"tools","verifsched","sched.go")
+ov[os.path.join(repo,"lib","verifsched","vsync","vsync.go")]=os.path.join(vd,"tools","verifsched","vsync","vsync.go")
 json.dump({"Replace":ov},open(os.path.join(b,"overlay.json"),"w"),indent=1)
+# overlay without the runtime patch (for the free-running -race binary)
+plain={k:v for k,v in ov.items() if "/src/runtime/" not in k}
+json.dump({"Replace":plain},open(os.path.join(b,"overlay_plain.json"),"w"),indent=1)
 PY
   ( cd "$VERIF_DIR/harness" && go build -modfile="$BUILD/go.mod" -overlay "$BUILD/overlay.json" -tags verif -o "$BUILD/rdmcheck" ./cmd/rdmcheck )
+}
+
+# build_sched: the schedule-explorer binary (every statement of lib/** and of the service file preceded by a yield
+# point) and the free-running race-detector binary, both from the same harness sources.
+build_sched() {
+  rm -rf "$BUILD/instr"; mkdir -p "$BUILD/instr"
+  "$BIN/instr" "$BUILD/instr" "$BUILD/instr/frag.json" "$BUILD/svc_gen.go" $(find "$REPO/lib" -name '*.go' -not -name '*_test.go' -not -path '*/testUtils/*' -not -name 'zz_verif_*' | sort) > "$BUILD/instr/summary.txt"
+  python3 - "$BUILD" "$VERIF_DIR" <<'PY'
+import json,sys,os
+b,vd=sys.argv[1:3]
+ov=json.load(open(os.path.join(b,"overlay.json")))["Replace"]
+fr=json.load(open(os.path.join(b,"instr","frag.json")))
+gen=os.path.join(b,"svc_gen.go")
+for k,v in fr.items():
+    if k==gen:
+        ov[os.path.join(vd,"harness","svc","zz_svc_gen.go")]=v
+    else:
+        ov[k]=v
+json.dump({"Replace":ov},open(os.path.join(b,"overlay_sched.json"),"w"),indent=1)
+PY
+  ( cd "$VERIF_DIR/harness" && go build -modfile="$BUILD/go.mod" -overlay "$BUILD/overlay_sched.json" -tags verif -o "$BUILD/rdmsched" ./cmd/rdmcheck )
+  ( cd "$VERIF_DIR/harness" && CGO_ENABLED=1 go build -race -modfile="$BUILD/go.mod" -overlay "$BUILD/overlay_plain.json" -o "$BUILD/rdmrace" ./cmd/rdmcheck )
 }
